@@ -219,3 +219,4 @@ _meta.apply(PROPS)
 # the body behind the per-file contract used by the any-size --list unit
 for _p in ('C08', 'C09'):
     PROPS[_p]['units'] = PROPS[_p]['units'] + [cli.ExtractAndSummarize]
+PROPS['C03']['units'] = PROPS['C03']['units'] + [_s.SrcCalloutsNative]
